@@ -397,7 +397,7 @@ def time_stream(ctx: core.Ctx) -> None:
 def correspondence(ctx: core.Ctx) -> None:
     time_stream(ctx)
     rnd = ctx.rng
-    n = ctx.budget(25, 330)
+    n = ctx.budget(25, 300)
     for i in range(n):
         p = gen_project.generate(rnd)
         for f in p.features:
